@@ -212,6 +212,23 @@ def check_b(ctx, facts):
                               witness=dict(schedule='more than one element in the list'))
             else:
                 ctx.ok('C05.b', key, 'loop `for %s in %s` calls %s() on every element on every path' % (norm(lp.target), norm(lp.iter), callee))
+    # during the clocking phase nothing else is evaluated: clockAll (and what it calls besides the clock() methods, which C05.a covers)
+    # neither propagates a block nor writes / commits a wire - such a value would be visible to blocks clocked later in the same edge
+    from ..callgraph import closure
+    cds = facts.cls('ClockDriverSimulator', SIM, required=False)
+    ca = facts.lookup_inl(cds, 'clockAll') if cds is not None else None
+    if ca is not None:
+        mid = []
+        fns = [(cds, ca)] + [(k, f) for k, f in closure(facts, cds, ca, stop=lambda k, f: f.name == 'clock') if f.name != 'clock']
+        for k, f in fns:
+            for x in ast.walk(f):
+                if isinstance(x, ast.Call) and isinstance(x.func, ast.Attribute) and x.func.attr in ('propagate', 'propagateAll', 'put', 'settle', 'settleAll'):
+                    mid.append('%s in %s' % (norm(x)[:50], qual(k, f)))
+        if mid:
+            ctx.violation('C05.b', 'clock-phase-pure', 'the clocking phase evaluates / commits something besides clock(): %s' % mid[:3], '%s:ClockDriverSimulator.clockAll' % SIM,
+                          witness=dict(schedule='a block with both clock() and propagate() visited before a block that reads its output'))
+        else:
+            ctx.ok('C05.b', 'clock-phase-pure', 'clockAll and its helpers call nothing but clock(): no propagate / put / settle during the clocking phase')
     # clockAll is the only call site of .clock()
     sites = []
     for rel, c, fn in iter_functions(facts):
